@@ -4,6 +4,7 @@ package main
 
 import (
 	"fmt"
+	"sort"
 	"strings"
 
 	"github.com/atombender/go-jsonschema/internal/zzvrt"
@@ -222,26 +223,37 @@ func HarnessCLIFlagWiring() {
 		schemaRootTypes = []string{"https://example.com/widget#=Mapped"}
 	}
 	args := []string{zzIn + "/widget.json"}
-	twoIDs := zzvrt.Bool()
-	if twoIDs {
-		// two schema ids, the per-schema flags given for ONE of them only (the one that sorts
-		// first): they must not reach the other
-		args = []string{zzIn + "/gadget.json"}
-		schemaRootTypes = []string{"https://example.com/gadget=TheGadget"}
-		schemaPackages = []string{"https://example.com/widget#=gen"}
-	}
+	twoIDs := zzvrt.Choice(3)
 	want := generator.Config{
 		Warner: func(string) {}, ExtraImports: extraImports, Capitalizations: capitalizations,
 		DefaultOutputName: "-", DefaultPackageName: "gen", SchemaMappings: []generator.SchemaMapping{},
 		YAMLExtensions: []string{".yml", ".yaml"}, StructNameFromTitle: structNameFromTitle,
 		Tags: tags, OnlyModels: onlyModels, MinSizedInts: minSizedInts,
 	}
-	if twoIDs {
+	switch twoIDs {
+	case 1:
+		// two schema ids with different sets of per-schema flags: what is given for one must
+		// not reach the other (here the id that sorts first has the larger set)
+		args = []string{zzIn + "/gadget.json"}
+		schemaRootTypes = []string{"https://example.com/gadget=TheGadget"}
+		schemaPackages = []string{"https://example.com/gadget=example.com/gadgets"}
+		schemaOutputs = []string{"https://example.com/gadget=" + zzOut + "/g/gadget.go", "https://example.com/widget#=" + zzOut + "/w/widget.go"}
 		want.SchemaMappings = []generator.SchemaMapping{
-			{SchemaID: "https://example.com/gadget", PackageName: "gen", RootType: "TheGadget"},
-			{SchemaID: "https://example.com/widget#", PackageName: "gen"}}
-	} else if schemaRootTypes != nil {
-		want.SchemaMappings = append(want.SchemaMappings, generator.SchemaMapping{SchemaID: "https://example.com/widget#", PackageName: "gen", RootType: "Mapped"})
+			{SchemaID: "https://example.com/gadget", PackageName: "example.com/gadgets", RootType: "TheGadget", OutputName: zzOut + "/g/gadget.go"},
+			{SchemaID: "https://example.com/widget#", PackageName: "gen", OutputName: zzOut + "/w/widget.go"}}
+	case 2:
+		// ... and here the id that sorts last
+		args = []string{zzIn + "/gadget.json"}
+		schemaRootTypes = []string{"https://example.com/widget#=TheWidget"}
+		schemaPackages = []string{"https://example.com/widget#=example.com/widgets"}
+		schemaOutputs = []string{"https://example.com/gadget=" + zzOut + "/g/gadget.go", "https://example.com/widget#=" + zzOut + "/w/widget.go"}
+		want.SchemaMappings = []generator.SchemaMapping{
+			{SchemaID: "https://example.com/gadget", PackageName: "gen", OutputName: zzOut + "/g/gadget.go"},
+			{SchemaID: "https://example.com/widget#", PackageName: "example.com/widgets", RootType: "TheWidget", OutputName: zzOut + "/w/widget.go"}}
+	default:
+		if schemaRootTypes != nil {
+			want.SchemaMappings = append(want.SchemaMappings, generator.SchemaMapping{SchemaID: "https://example.com/widget#", PackageName: "gen", RootType: "Mapped"})
+		}
 	}
 	code := zzvrt.CatchExit(func() { rootCmd.Run(rootCmd, args) })
 	got := zzvrt.Stdout()
@@ -255,7 +267,36 @@ func HarnessCLIFlagWiring() {
 		zzvrt.Check("C16.cli.flags-denote-the-same-configuration", code != 0)
 		return
 	}
-	zzvrt.Emit("cli.go", got)
-	zzvrt.Emit("lib.go", string(g.Sources()["-"]))
-	zzvrt.Check("C16.cli.flags-denote-the-same-configuration", code == 0 && got == string(g.Sources()["-"]))
+	// every output of the library run is what the CLI wrote under that name, and nothing else
+	srcs := g.Sources()
+	same := code == 0 && len(zzvrt.WrittenFiles()) == len(srcs)-zzCount(srcs, "-")
+	for _, name := range zzSortedNames(srcs) {
+		text := zzvrt.WrittenFile(name)
+		if name == "-" {
+			text = got
+		}
+		zzvrt.Emit("cli_"+strings.ReplaceAll(name, "/", "_"), text)
+		zzvrt.Emit("lib_"+strings.ReplaceAll(name, "/", "_"), string(srcs[name]))
+		same = same && text == string(srcs[name])
+	}
+	if _, ok := srcs["-"]; !ok {
+		same = same && got == ""
+	}
+	zzvrt.Check("C16.cli.flags-denote-the-same-configuration", same)
+}
+
+func zzCount(m map[string][]byte, name string) int {
+	if _, ok := m[name]; ok {
+		return 1
+	}
+	return 0
+}
+
+func zzSortedNames(m map[string][]byte) []string {
+	var names []string
+	for k := range m {
+		names = append(names, k)
+	}
+	sort.Strings(names)
+	return names
 }
